@@ -318,6 +318,18 @@ func (r *Run) checkExtAuth() {
 					}
 				}
 				for _, pp := range probePaths {
+					if url == "" && oauth != "" {
+						// the endpoints of the oauth2 proxy itself (sign-in, callback) are not authenticated, by
+						// design; an empty prefix exempts nothing (it would exempt every path)
+						prefix := "/oauth2"
+						if v, ok := ing.Annotations[annPrefix+"oauth-uri-prefix"]; ok {
+							prefix = v
+						}
+						if prefix = strings.TrimRight(prefix, "/"); prefix != "" && strings.HasPrefix(pp, prefix+"/") {
+							r.probe("oauth_proxy_endpoint_not_judged")
+							continue
+						}
+					}
 					for _, https := range []bool{false, true} {
 						req := Req{HTTPS: https, Host: rule.Host, Path: pp}
 						// the request belongs to this declaration only when the reference router
